@@ -15,7 +15,7 @@ CHECKS = {
             "Trusts the reference model M-dewey (written from the property statement, self-checked at start) and proptest's generators; known finding KF-1 region is judged leniently and counted.",
             "pbt"),
     "C02": ("DESIGN.md section 4 / C02",
-            "property-based differential testing against reference model M-dewey-pattern, random stream plus complete enumeration of a finite product space",
+            "property-based differential testing against reference model M-dewey-pattern, random stream plus complete enumeration of a finite product space; thorough tier adds a coverage-guided libFuzzer campaign on the same oracle",
             "Generated-input search: (pattern, name) pairs over bases x 0-3 operators x bounds x base relations x versions are compiled and matched through Dewey and Pattern and compared with an independent compile/match model; the product space is also enumerated completely (quick: reduced pools, thorough: full pools); a free-form stream takes bases from the library's own literals and bounds / versions from the free version-token generator (same bound twice, a bound edited into the version, very long bounds, the pattern's own text as the candidate).",
             "Trusts M-dewey-pattern / M-dewey (self-checked); pool versions and bounds are letter-free so KF-1 cannot interfere, the free-form and realistic streams judge the KF-1 region leniently as C01 does.",
             "pbt"),
@@ -30,12 +30,12 @@ CHECKS = {
             "Trusts M-brace (self-checked); brace-free expansions are judged by the library itself as the statement prescribes (checked independently by C02/C05).",
             "pbt"),
     "C05": ("DESIGN.md section 4 / C05",
-            "grammar-based property testing against an own shell-glob matcher (M-glob) and the identical-string rule, instance + mutation name generator",
+            "grammar-based property testing against an own shell-glob matcher (M-glob) and the identical-string rule, instance + mutation name generator; thorough tier adds a coverage-guided libFuzzer campaign on the same oracle",
             "Generated-input search: glob/plain patterns of the pkgsrc subset against instances and one-step mutations concentrated on the first two characters (where the fast-reject looks), short and empty names; set members include ^ ! ] [ \\ * ?, a stream holds the syntax of other glob dialects (POSIX classes, '^' negation, backslash escapes), words of the library's own literals appear as glob literals and name affixes; malformed globs must be rejected.",
             "Trusts M-glob (self-checked; a ']' directly after '[' or '[!' is a set member as in every shell); names with leading '.' or '/' and '**' are outside the generated subset.",
             "pbt"),
     "C06": ("DESIGN.md section 4 / C06",
-            "property-based model comparison (M-dewey winner) plus metamorphic relations over permutations and association trees of pairwise reduction",
+            "property-based model comparison (M-dewey winner) plus metamorphic relations over permutations and association trees of pairwise reduction; thorough tier adds a coverage-guided libFuzzer campaign on the same oracle",
             "Generated-input search over patterns of every kind and candidate lists rich in version ties: pairwise results vs model, argument-order symmetry, and 18 fold orders per list; a second stream checks self-consistency on arbitrary patterns/names.",
             "Trusts M-dewey for the winner (letter-free versions); arbitrary stream uses no model.",
             "pbt"),
@@ -45,7 +45,7 @@ CHECKS = {
             "Trusts M-summary.print/apply (self-checked); values without CR/LF and non-empty lists only.",
             "pbt"),
     "C08": ("DESIGN.md section 4 / C08",
-            "property-based differential testing with fault injection against M-summary.parse; enumeration of all single and double removals of required variables and of all 2^11 API subsets",
+            "property-based differential testing with fault injection against M-summary.parse; enumeration of all single and double removals of required variables and of all 2^11 API subsets; thorough tier adds a coverage-guided libFuzzer campaign on the same oracle",
             "Generated-input search with injected faults: acceptance must coincide with the model and the reported error must be a cause actually present (exact when there is one cause); is_completed() is enumerated over every subset of the required variables, and every name at edit distance one from a supported variable name (12 212 names) is enumerated as an extra line of a complete entry.",
             "Trusts M-summary.parse/causes (self-checked); with several simultaneous causes any one is accepted.",
             "pbt"),
@@ -60,7 +60,7 @@ CHECKS = {
             "Trusts M-distinfo.print/classify (self-checked); names whose basename and whole name classify differently are outside the domain.",
             "pbt"),
     "C11": ("DESIGN.md section 4 / C11",
-            "property-based differential testing against the line-level model M-distinfo over interleaved well-formed lines mixed with injected noise lines",
+            "property-based differential testing against the line-level model M-distinfo over interleaved well-formed lines mixed with injected noise lines; thorough tier adds a coverage-guided libFuzzer campaign on the same oracle",
             "Generated-input search: shuffled checksum/size lines of 1-5 files with varying blanks (also runs of a chosen length up to 40), leading blanks, a chosen number (0-400) of trailing tokens and algorithm case, mixed with comments, unknown algorithms, bad sizes, garbage and truncated lines; the parsed maps must equal the model's (order, checksums, sizes, patch/distfile split) and contain nothing else.",
             "Trusts M-distinfo.parse (self-checked); lines that a liberal parser may accept (wrong separator instead of '=') are outside the domain.",
             "pbt"),
@@ -95,12 +95,12 @@ CHECKS = {
             "Inputs above 4 KiB, brace patterns above 1024 expansions (cost exponential by specification) and unreadable directories are not explored; time is a signal only through the watchdog with in-isolation confirmation.",
             "pbt"),
     "C18": ("DESIGN.md section 4 / C18",
-            "property-based testing with an inverse (split/rebuild) oracle and metamorphic probes of the revision through the comparison operators",
+            "property-based testing with an inverse (split/rebuild) oracle and metamorphic probes of the revision through the comparison operators; thorough tier adds a coverage-guided libFuzzer campaign on the same oracle",
             "Generated-input search over package-name strings (many '-', 'nb' in base / repeated / with up to 18 digits, parts from the library's own literals, versions of a chosen number - up to 1300 - of components); the reported revision is cross-examined through >=, <=, >, < patterns, and the pkg_summary accessors are compared.",
             "Assumes Pattern comparison is the 'version comparison' of the statement (checked by C01).",
             "pbt"),
     "C19": ("DESIGN.md section 4 / C19",
-            "complete enumeration of a finite segment grammar (plus random strings and names of chosen lengths) against M-path; complete product of patterns x paths x colon layouts for Depend plus a random Depend stream",
+            "complete enumeration of a finite segment grammar (plus random strings and names of chosen lengths) against M-path; complete product of patterns x paths x colon layouts for Depend plus a random Depend stream; thorough tier adds a coverage-guided libFuzzer campaign on the same oracle",
             "Exhaustive over all segment sequences up to length 4 (thorough: 6) with/without leading and trailing '/', compared with an independent acceptance model, accessor/equality/re-parse laws; Depend decided by its definition from Pattern::new and PkgPath::new.",
             "Trusts M-path (self-checked); Depend oracle uses the library's own Pattern::new / PkgPath::new for the halves, as the statement prescribes.",
             "pbt"),
